@@ -357,6 +357,7 @@ let e2e6_record (tok : string) : string =
     else if not (prop_frames r.pol r.idem spec (nat_of_int r.nn) r.frs)
     then "viol e2e frames-violate-property " ^ rec_summary r
     else "diff e2e unexpected-result " ^ rec_summary r
+  | Some _ when r.res = "rows" && r.co = None -> "diff e2e rows-without-coordinator " ^ rec_summary r
   | Some o ->
     let nodes = nodes_of r in
     let spec = Option.map (fun (m, _) -> nat_of_int m) r.spec in
